@@ -301,6 +301,20 @@ fn synth_population(rng: &mut SplitMix64, name: &str, rounds: u32, holes: usize,
             v.push(hash_form(&st, chk, d, style));
         }
     }
+    // decoy populations: the same shapes with a different extension / first byte block nothing
+    match rng.below(8) {
+        0 => {
+            for e in v.iter_mut() {
+                e[10] = if e[10] == b'Q' { b'R' } else { b'Q' };
+            }
+        }
+        1 if st.3 > 0 => {
+            for e in v.iter_mut() {
+                e[0] = if e[0] == b'Q' { b'R' } else { b'Q' };
+            }
+        }
+        _ => {}
+    }
     for _ in 0..holes {
         if v.is_empty() {
             break;
